@@ -529,7 +529,9 @@ def run(ctx):
         ih = facts.fn("ignore::pathutil::is_hidden")
         ebi = ExprBuilder(ih)
         e_ = ebi.local(0)
-        dots = any(x.k == "const" and x[2] and ("46_u8" in str(x[2]) or "'.'" in str(x[2]) or '"."' in str(x[2])) for x in walk(e_))
+        # (the comparison with '.' may sit in a closure handed to map_or / is_some_and)
+        units_ = [e_] + [ExprBuilder(g_).local(0) for g_ in facts.closures_of(ih.path)]
+        dots = any(x.k == "const" and x[2] and ("46_u8" in str(x[2]) or "'.'" in str(x[2]) or '"."' in str(x[2])) for u_ in units_ for x in walk(u_))
         if dots and mentions_call(e_, "ignore::pathutil::file_name"):
             r.ok("is_hidden", "hidden ⇔ the file name starts with '.'", fn=ih)
         else:
